@@ -101,7 +101,7 @@ Definition on_mode_disable_components : prog :=
 
 (* _do_periodics: feedbacks, then robotPeriodic (each guarded) *)
 Definition do_periodics : prog :=
-  PSeq (pseq (map PFeedback (seq 0 (nfb c)))) (PGuard (PInvoke SRobotPeriodic)).
+  pseq [ pseq (map PFeedback (seq 0 (nfb c))); PGuard (PInvoke SRobotPeriodic) ].
 
 Definition reset_store (st : nat -> nat -> Z) : nat -> nat -> Z :=
   fun ci a => match marked c ci a with Some d => d | None => st ci a end.
@@ -118,7 +118,7 @@ Definition enter (m : mode) : prog :=
   match m with
   | Disabled => pseq [ put_mode Disabled; on_mode_disable_components; PGuard (PInvoke (SInit Disabled)) ]
   | Auto => pseq [ put_mode Auto; on_mode_enable_components; PGuard (PInvoke (SInit Auto));
-                   pwhen (has_auto c) (PGuard (PInvoke SAutoEnable)) ]
+                   PGuard (pwhen (has_auto c) (PInvoke SAutoEnable)) ]
   | Teleop => pseq [ put_mode Teleop; on_mode_enable_components; PGuard (PInvoke (SInit Teleop)) ]
   | Test => pseq [ put_mode Test; PGuard (PInvoke (SInit Test)) ]
   end.
@@ -127,7 +127,7 @@ Definition enter (m : mode) : prog :=
 Definition iteration (m : mode) : prog :=
   match m with
   | Disabled => pseq [ PGuard (PInvoke (SPeriodic Disabled)); do_periodics ]
-  | Auto => pseq [ pwhen (has_auto c) (PGuard (PInvoke SAutoIter));
+  | Auto => pseq [ PGuard (pwhen (has_auto c) (PInvoke SAutoIter));
                    pwhen (teleop_in_auto c) (PGuard (PInvoke (SPeriodic Teleop)));
                    PGuard enabled_periodic ]
   | Teleop => pseq [ PGuard (PInvoke (SPeriodic Teleop)); enabled_periodic ]
@@ -138,7 +138,7 @@ Definition iteration (m : mode) : prog :=
 Definition leave (m : mode) : prog :=
   match m with
   | Disabled => PNop
-  | Auto => pseq [ pwhen (has_auto c) (PGuard (PInvoke SAutoDisable)); on_mode_disable_components ]
+  | Auto => pseq [ PGuard (pwhen (has_auto c) (PInvoke SAutoDisable)); on_mode_disable_components ]
   | Teleop => on_mode_disable_components
   | Test => PNop
   end.
